@@ -61,7 +61,7 @@ impl Plan for Interposer {
 }
 
 fn case_json(entries: u32, flags: u32, used: bool, interpose: bool) -> Value {
-    json!({"phase": "drop", "op": "drop", "ring": entries, "flags": flags, "flags_name": flags_name(flags), "used": used, "interpose": interpose})
+    json!({"phase": "drop", "op": "drop", "ring": entries, "kernel_ring_entries": entries.next_power_of_two(), "flags": flags, "flags_name": flags_name(flags), "used": used, "interpose": interpose})
 }
 
 /// One (ring size, flags, used?, interposed?) case.  Returns the set-up status.
@@ -106,6 +106,18 @@ pub fn drop_case(entries: u32, flags: u32, used: bool, interpose: bool, r: &mut 
         r.note(format!("harness: ring fd {ring_fd} vs logged io_uring_setup result {setup_fd:?}"));
     }
     r.outcome(&format!("setup:{}-mappings", created.len()));
+    // requested vs. allocated size (raw io_uring_setup, independent of the wrapper): the SQE array mapping must
+    // cover every slot the kernel allocated, not just the requested ones
+    let kernel = crate::ops_raw::kernel_ring_entries(entries);
+    if let Some((ksq, _)) = kernel {
+        r.outcome(if ksq == entries { "size:kernel-equals-requested" } else { "size:kernel-rounded-up" });
+        let sqe_sz: u64 = if flags & rusl::platform::IoUringParamFlags::IORING_SETUP_SQE128.bits() != 0 { 128 } else { 64 };
+        if let Some(m) = created.last() {
+            if m.1 != ksq as u64 * sqe_sz {
+                r.violation("C18:setup:sqe-mapping-size-differs", format!("requested {entries} entries, kernel allocated {ksq}: the SQE array is mapped with {:#x} bytes instead of {:#x}", m.1, ksq as u64 * sqe_sz), cj.clone());
+            }
+        }
+    }
 
     if used {
         // one operation through the ring, so that the queues are not in their initial state
@@ -231,17 +243,17 @@ pub fn drop_case(entries: u32, flags: u32, used: bool, interpose: bool, r: &mut 
     }
     r.outcome(if maps1.0 == maps0.0 { "maps:same-line-count" } else { "maps:anonymous-lines-changed(harness allocator)" });
     if r.samples.len() < 2 {
-        r.sample(json!({"case": cj, "setup_mappings": created_s, "drop_munmaps": unmapped_s, "drop_closes": closes, "ring_fd": ring_fd}));
+        r.sample(json!({"case": cj, "requested_entries": entries, "kernel_entries": kernel, "setup_mappings": created_s, "drop_munmaps": unmapped_s, "drop_closes": closes, "ring_fd": ring_fd}));
     }
     clear_case();
     "accepted".into()
 }
 
-pub const SIZES: &[u32] = &[1, 2, 4, 8, 64];
+pub const SIZES: &[u32] = &[1, 2, 3, 4, 5, 6, 7, 8, 64];
 
 pub fn run(args: &Args) -> Report {
     let t0 = now();
-    let sizes: Vec<u32> = if args.thorough { vec![1, 2, 3, 4, 8, 16, 64, 256, 1024, 4096] } else { SIZES.to_vec() };
+    let sizes: Vec<u32> = if args.thorough { vec![1, 2, 3, 4, 5, 6, 7, 8, 12, 16, 64, 100, 256, 1024, 4096] } else { SIZES.to_vec() };
     let mut items = Vec::new();
     for flags in flag_candidates() {
         let sizes = sizes.clone();
